@@ -19,6 +19,7 @@ structure XRule where
   hasToken : Bool
   hasLine  : Bool
   hasDone  : Bool
+  tokTrig  : String → Bool                      -- would report on this token (its text) when collecting
   lineTrig : String → Bool                      -- would report on this line when collecting
   lineFix  : String → Option String             -- fix mode: `set_current_fix_line`
   doneFix  : Option String → Option String      -- fix mode completion, given `last_line_fixed`
@@ -51,6 +52,11 @@ def collectList (k : Nat) (rs : List XRule) : List XRule := rs.filter fun r => r
 /-- `starting_new_file(constraint_id_list=ids)`: an empty list is falsy — no constraint at all. -/
 def starts (rs : List XRule) (constraint : List XRule) : Log :=
   (rs.filter fun r => r.hasStart && (constraint.isEmpty || constraint.any (·.id == r.id))).map fun r => (r.id, .start)
+
+/-- Collect-list rules that report on some token: what the report context of a phase gathers from
+the token callbacks. -/
+def tokenTrigs (k : Nat) (rs : List XRule) (toks : List String) : List String :=
+  (rs.filter fun r => r.hasToken && bindOf k r == some .report && toks.any r.tokTrig).map (·.id)
 
 /-- `next_token` for every token, every mapped rule that overrides it. -/
 def tokenCalls (k : Nat) (rs : List XRule) (toks : List String) : Log :=
@@ -187,7 +193,10 @@ def passG (rebind : Bool) (k : Nat) (rs : List XRule) (toks : String → List St
   let o := completedG rebind k rs o (ls.length + 1)
   let changed := tokFixed.isSome || o.records > 0
   { content := if changed then o.written else doc,
-    changed := changed, trig := o.trig,
+    changed := changed,
+    -- `collected_token_triggers | collected_line_triggers`: the token phase's report context, and the line phase's
+    -- (which saw the tokens of the possibly regenerated document and the lines)
+    trig := tokenTrigs k rs (toks doc) ++ tokenTrigs k rs (toks doc₁) ++ o.trig,
     log := log₁ ++ doneTok ++ log₂ ++ o.log,
     ops := opsTok ++ [.read (!tokFixed.isSome), .createLine, .writeLine] ++ (if changed then [.copyBack] else [])
            ++ [.removeLine] ++ (if tokFixed.isSome then [.removeTok] else []) }
